@@ -544,13 +544,17 @@ func (c *checkCtx) writeEvidence() {
 	if c.samples == nil {
 		cov["samples"] = []J{}
 	}
+	assume := c.plan.assume
+	if assume == nil {
+		assume = []string{}
+	}
 	ev := map[string]J{
 		"property_id": c.id,
 		"tier":        c.tier,
 		"seed":        c.seed,
 		"level":       c.plan.level,
 		"coverage":    cov,
-		"assumptions": c.plan.assume,
+		"assumptions": assume,
 		"wall_s":      round1(time.Since(c.start).Seconds()),
 		"violations":  len(c.violations),
 	}
